@@ -152,6 +152,19 @@ check("C11",
       "Lean 4 invariant proof of the AES residue buffers + decision-logic theorems + differential correspondence + leak/IV/password exploration",
       "DESIGN.md §4 C11")
 
+check("C04",
+      "Theorems (Lean, no enumeration/SAT): CRC-32 modelled as the bit-serial shift register of the format's appendix "
+      "is linear in the register difference; two equal-length byte strings differing only inside four consecutive "
+      "bytes (every single-bit flip, every burst <=32 bits) have different CRC-32 from every start value; hence a "
+      "CRC-verified region (start header, raw next header, stored member) that verified pristine is rejected after "
+      "such damage; block-wise accumulation = CRC of the concatenation. Tied by the crc stream (zlib.crc32, "
+      "calculate_crc32 with several block sizes). Beyond that detection is probabilistic and is explored: all single-bit "
+      "flips of small archives, overwrites, every truncation, bursts, block swaps, insert/remove/extend over py7zr and "
+      "reference-writer archives (incl. a CRC-0 member, folder-CRC-only layout, AES, multi-folder); extraction outcome "
+      "compared with the pristine map and test()/testzip() checked for consistency on the same bytes.",
+      "Lean 4 proof of CRC-32 burst detection (linear-register invariant) + differential correspondence + exhaustive bit-flip exploration",
+      "DESIGN.md §4 C04")
+
 ALL = ["C%02d" % i for i in range(1, 21)]
 REASON_PENDING = "not yet claimed in this revision: model/theorems/correspondence for it are still being built (see DESIGN.md §8.3 staging)"
 
